@@ -120,7 +120,8 @@ class Plugin(abc.ABC):
         attr = getattr(self.config, f'plugin_{self.name}'.upper(), 'True')
         if attr is None:
             return True
-        return str2bool(attr)
+        # (given in code the switch can be a bool, from the environment it is text)
+        return str2bool(str(attr))
 
     def shutdown(self):
         """Clean up and shutdown the plugin."""
